@@ -87,6 +87,10 @@ def lru(r, F):
             ovf = [b.idx for b in push.calls_to(r"Lru::<K, V, P>::may_overflow_high_priority_pool$")]
             okh = okh and bool(set(ovf) & rn)
     r.require(okh, push, "LRU push: Hint::Normal -> high-priority tail (+overflow), Hint::Low -> low-priority tail", "hint table honoured", "LRU push does not place Normal / Low hinted entries in the high / low priority lists", ln=push.lo)
+    ovf_calls = [b.idx for b in push.calls_to(r"Lru::<K, V, P>::may_overflow_high_priority_pool$")]
+    r.require(bool(hp) and bool(ovf_calls) and all(any(push.dominates(h, o) for h in hp) for o in ovf_calls), push, "LRU push: newcomer linked before the pool overflows",
+              "high_priority_list.push_back(record) dominates may_overflow_high_priority_pool()", "Lru::push runs the high-priority overflow before linking the new record: an entry heavier than the pool's share "
+              "stays in the pool while older entries are demoted", ln=push.lo)
     _expect(r, push, ends(F, push, A), {"high_priority_list": {"push_back"}, "list": {"push_back"}}, "LRU push: insert at the MRU end")
     pop = F.method(A, "pop", "Eviction")
     e = ends(F, pop, A)
@@ -237,6 +241,12 @@ def lfu(r, F):
         tab = tables.table(push, c, fl, act)
         r.require(tab == ("no", "no", "yes"), push, "w-TinyLFU window overflow: weight ? capacity", "table (w<cap, =, >) -> overflow: %s" % (tab,),
                   "the window must overflow to probation exactly while its weight exceeds its share; got %s" % (tab,), ln=c.ln)
+    # the overflow runs on the window INCLUDING the newcomer: the new record is linked at the window tail before the overflow test, so that an entry heavier than
+    # the window's share overflows to probation itself instead of sitting in the window while older entries are pushed out
+    link_new = [b for (f_, m, g, b) in ops if f_ == "window" and m == "push_back" and g is push and 2 in backslice(push, push.blocks[b].term.args[1], "prov").args]
+    r.require(bool(link_new) and bool(found) and all(push.dominates(link_new[0], c.sw.idx) for c, fl in found), push, "w-TinyLFU push: newcomer linked before the window overflows",
+              "window.push_back(record) dominates the window-weight test", "Lfu::push runs the window overflow before linking the new record: an entry heavier than the window share stays in the window "
+              "(and loses the admission comparison) instead of overflowing to probation", ln=push.lo)
     pop = F.method(A, "pop", "Eviction")
     ops = list_ops(F, pop, A)
     e = ends(F, pop, A)
